@@ -7,7 +7,7 @@
 //                            the documents that follow: S = XalanSourceTree (XalanSourceTreeParserLiaison),
 //                            W = Xerces DOM wrapped by XercesDocumentWrapper with buildWrapper=true (indexed),
 //                            N = the same with buildWrapper=false (not indexed: structural isNodeAfter)
-//   doc <d> <shape>          build document d from a shape  (grammar: node := 'e' digit '(' node* ')' | 't' | 'c' | 'p';
+//   doc <d> <shape>          build document d from a shape  (grammar: node := ('e'|'E') digit '(' node* ')' | 't' | 'c' | 'p' — 'E' adds an xmlns:p1 declaration;
 //                            the document is the sequence of top-level nodes); reply describes what a
 //                            structural pre-order walk of the *real* tree sees and how the stored
 //                            indexes relate to it
@@ -89,7 +89,7 @@ static bool shapeToXml(const std::string& s, size_t& i, std::string& out, int de
     while (i < s.size() && s[i] != ')')
     {
         const char c = s[i];
-        if (c == 'e')
+        if (c == 'e' || c == 'E')
         {
             if (i + 2 >= s.size() + 0 || s[i + 1] < '0' || s[i + 1] > '9' || s[i + 2] != '(') return false;
             const int na = s[i + 1] - '0';
@@ -101,6 +101,7 @@ static bool shapeToXml(const std::string& s, size_t& i, std::string& out, int de
                 out += char('0' + k);
                 out += "=\"v\"";
             }
+            if (c == 'E') out += " xmlns:p1=\"u\"";      // a namespace declaration: one more attribute node (sorts last)
             out += ">";
             if (!shapeToXml(s, i, out, depth + 1)) return false;
             if (i >= s.size() || s[i] != ')') return false;
@@ -367,7 +368,7 @@ static std::string handle(const std::string& line)
         newSession(t[1][0]);
         return "ok";
     }
-    if (op == "variant" && t.size() == 3) return "ok";     // model-only request
+    if (op == "variant" && t.size() == 4) return "ok";     // model-only request
     if (!g) return "bad no-session";
     Session& s = *g;
     if (op == "doc" && t.size() == 3)
